@@ -109,6 +109,10 @@ def parseOp (ws : List String) : Option Op :=
 
 def stepLine (d : DSt) (ws : List String) : DSt × String :=
   match ws with
+  | "quiet" :: rest =>
+    -- an operation whose intermediate state the harness cannot observe (it happened inside a
+    -- collector run): executed, output suppressed
+    ((stepLine d rest).1, "q")
   | ["cfg", b, l, inst] =>
     match b.toNat?, l.toNat?, natList? inst with
     | some b, some l, some inst =>
